@@ -310,6 +310,113 @@ fn supervision_case(heard_after: Option<usize>, heard_kind: u64, delay_frac: u64
     Ok(())
 }
 
+/// A stranger offers the token twice, one slot time apart, while the station is not polled (an
+/// application stall of a little more than a slot time): the next poll finds both offers in the
+/// receive buffer.  The second offer is an offer 'a second time' like any other.
+fn late_poll_case(stranger: u8, gap_bits: i64, resume_bits: i64, obs: &mut Obs) -> CaseResult {
+    let mut w = new_world();
+    to_ring_idle(&mut w)?;
+    w.wait_idle(40, &mut ());
+    let idx = w.trace_len();
+    // no polls from here on
+    w.bus.inject(ENV, w.now, &token(stranger, TS));
+    w.now = w.last_end_us() + w.bit_us(gap_bits);
+    w.bus.inject(ENV, w.now, &token(stranger, TS));
+    w.now = w.last_end_us() + w.bit_us(resume_bits);
+    // polls resume
+    w.step(w.bit_us(3 * SLOT));
+    let used = w.frames_since(idx).iter().any(|(_, f)| matches!(f, Some(RefFrame::Token { sa, .. }) if *sa == TS));
+    ensure!(used, "second-offer-declined", "#{} offered the token twice ({} bit times apart) while the station was not polled; {} bit times after the second offer the polls resumed, but the station did not take the token (state {}, transmissions {:?})", stranger, gap_bits, resume_bits, w.state_name(), w.frames_since(idx).iter().map(|x| x.1.clone()).collect::<Vec<_>>());
+    obs.label("both-offers-found-by-one-poll");
+    Ok(())
+}
+
+/// Application with a single request (SRD to #7) on its first turn.
+struct OneShot {
+    armed: bool,
+}
+impl profirust::fdl::FdlApplication for OneShot {
+    fn transmit_telegram(&mut self, _now: profirust::time::Instant, fdl: &profirust::fdl::FdlActiveStation, tx: profirust::fdl::TelegramTx, _hp: profirust::fdl::HighPrioOnly) -> Option<profirust::fdl::TelegramTxResponse> {
+        if !self.armed {
+            return None;
+        }
+        self.armed = false;
+        Some(tx.send_data_telegram(
+            profirust::fdl::DataTelegramHeader {
+                da: 7,
+                sa: fdl.parameters().address,
+                dsap: Some(40),
+                ssap: Some(41),
+                fc: profirust::fdl::FunctionCode::Request { fcb: profirust::fdl::FrameCountBit::First, req: profirust::fdl::RequestType::SrdLow },
+            },
+            1,
+            |b| b[0] = 0x11,
+        ))
+    }
+    fn receive_reply(&mut self, _now: profirust::time::Instant, _fdl: &profirust::fdl::FdlActiveStation, _addr: u8, _telegram: profirust::fdl::Telegram) {}
+    fn handle_timeout(&mut self, _now: profirust::time::Instant, _fdl: &profirust::fdl::FdlActiveStation, _addr: u8) {}
+}
+
+/// Supervision of a pass that directly follows a message cycle which ended in a time-out: the
+/// reply to the station's last request never came, or broke off after `frag` bytes (`delay` bit
+/// times after the request).  Whatever is left of that reply was not heard after the pass.
+fn timeout_then_pass_case(frag: usize, delay: i64, heard: bool, obs: &mut Obs) -> CaseResult {
+    let mut w = new_world();
+    to_ring_idle(&mut w)?;
+    let mut app = OneShot { armed: true };
+    w.inject(&token(P, TS), &mut app);
+    let reply = rc::encode(&RefFrame::Data { da: TS, sa: 7, dsap: Some(41), ssap: Some(40), fc: 0x08, pdu: vec![9; 12] });
+    let mut passes: Vec<i64> = vec![];
+    let mut seen = w.trace_len();
+    let mut requests = 0;
+    let mut heard_done = false;
+    let t_end = w.now + w.bit_us(SLOT * 12);
+    while w.now < t_end {
+        w.run(5, &mut app);
+        let new: Vec<_> = w.frames_since(seen);
+        seen = w.trace_len();
+        for (t, f) in new {
+            match f {
+                Some(RefFrame::Data { da: 7, .. }) => {
+                    requests += 1;
+                    if frag > 0 {
+                        let end_us = (t.end_ns + 999) / 1000;
+                        while w.now < end_us + w.bit_us(delay) {
+                            w.run(5, &mut app);
+                        }
+                        w.bus.inject(ENV, w.now, &reply[..frag]);
+                    }
+                }
+                Some(RefFrame::Token { da, sa }) if da == P && sa == TS => {
+                    passes.push(t.start_ns);
+                    if heard && !heard_done {
+                        heard_done = true;
+                        let end_us = (t.end_ns + 999) / 1000;
+                        while w.now < end_us + w.bit_us(80) {
+                            w.run(5, &mut app);
+                        }
+                        w.bus.inject(ENV, w.now, &status_req(7, P));
+                    }
+                }
+                _ => {}
+            }
+        }
+    }
+    ensure!(requests == 1, "harness", "the application's single request was transmitted {} times", requests);
+    let las: Vec<u8> = w.fdl.inspect_token_ring().iter_active_stations().collect();
+    let gaps_bits: Vec<i64> = passes.windows(2).map(|p| (p[1] - p[0]) * 1_500_000 / 1_000_000_000 - 33).collect();
+    if heard {
+        ensure!(passes.len() == 1, "repeat-after-heard", "successor was heard after the pass but the token was passed {} times", passes.len());
+        ensure!(las.contains(&P), "heard-successor-removed", "successor was heard but is no longer in the LAS {:?}", las);
+    } else {
+        ensure!(passes.len() == 3, "pass-attempts", "message cycle ended in a time-out ({} bytes of a reply arrived), then the token was passed to a silent successor: {} token passes to it (expected the pass and two repetitions)", frag, passes.len());
+        ensure!(gaps_bits.iter().all(|g| *g >= SLOT), "retry-spacing", "token repeated after {:?} bit times of silence (slot time {})", gaps_bits, SLOT);
+        ensure!(!las.contains(&P), "silent-successor-kept", "silent successor still in the LAS {:?} after three attempts", las);
+    }
+    obs.label(if frag > 0 { "reply-broke-off-before-the-pass" } else { "no-reply-before-the-pass" });
+    Ok(())
+}
+
 /// Supervision with two successors: LAS {5, 6, 7}; #6 is dead (three passes, removed), then the
 /// token goes to #7 which misses `missed` passes (0..=3) before it is heard.
 fn supervision3_case(missed: usize, obs: &mut Obs) -> CaseResult {
@@ -404,7 +511,7 @@ fn exhaustive(i: u64, depth: u32, obs: &mut Obs) -> CaseResult {
 pub fn property() -> Property {
     Property {
         id: "C11",
-        rule: "cases: one real station TS=5 (HSA 8, two-station ring with partner 6) against a scripted environment; ALL sequences of depth 3 (quick) / 4-5 (thorough) over a 17-symbol alphabet (tokens P->TS, X->TS, Y->TS, P->X, X->P, 200->TS, TS->P, 126->TS, 126->P, TS->TS; status request from P / X; status reply; SC; silence of Tslot/2, 1.5 Tslot, token-lost time-out) from two start states (listening; in-ring idle), random sequences up to length 40, and the supervision scenarios (successor silent / heard after the 1st, 2nd, 3rd pass, three kinds of heard telegram and three kinds of undecodable activity - noise, bad checksum, bad length repetition -, eight delays). History invariants with PS/NS read from inspect_token_ring() immediately before each offer: token from the registered predecessor is accepted, a first offer by a stranger is not, an immediately repeated offer is; a listening station never uses a token and initiates only its claim; nothing is initiated without the token; status requests to TS are answered exactly once; after the own pass: silence => identical token again after > Tslot, three in total, then the successor leaves the LAS and the token goes to the next station; heard => no repetition, successor kept. Non-trivial = sequence contains a token offer to TS or starts in the ring; distinct by sequence.",
+        rule: "cases: one real station TS=5 (HSA 8, two-station ring with partner 6) against a scripted environment; ALL sequences of depth 3 (quick) / 4-5 (thorough) over a 17-symbol alphabet (tokens P->TS, X->TS, Y->TS, P->X, X->P, 200->TS, TS->P, 126->TS, 126->P, TS->TS; status request from P / X; status reply; SC; silence of Tslot/2, 1.5 Tslot, token-lost time-out) from two start states (listening; in-ring idle), random sequences up to length 40, and the supervision scenarios (successor silent / heard after the 1st, 2nd, 3rd pass, three kinds of heard telegram and three kinds of undecodable activity - noise, bad checksum, bad length repetition -, eight delays). History invariants with PS/NS read from inspect_token_ring() immediately before each offer: token from the registered predecessor is accepted, a first offer by a stranger is not, an immediately repeated offer is; a listening station never uses a token and initiates only its claim; nothing is initiated without the token; status requests to TS are answered exactly once; after the own pass: silence => identical token again after > Tslot, three in total, then the successor leaves the LAS and the token goes to the next station; heard => no repetition, successor kept; the same after a message cycle that ended in a time-out with the remains of a broken reply (timeout_then_pass), and a repeated offer found together with the first by one late poll is accepted (late_poll). Non-trivial = sequence contains a token offer to TS or starts in the ring; distinct by sequence.",
         assumptions: vec![
             "formulated over observable ownership episodes (DESIGN 6, C11 i-v): an offer arriving while TS supervises its own pass counts as a first offer; the remembered stranger is forgotten when TS acted as owner; only one stranger is remembered; a station that saw its own address twice is Offline and has no obligations; 'heard' = a complete valid telegram polled before the slot expires",
             "the environment transmits only after 40 bit times of idle bus and the station is polled every 5 us",
@@ -430,6 +537,22 @@ pub fn property() -> Property {
                 obs.sample(|| json!({"las": [5, 6, 7], "dead": 6, "second_successor_misses": i}));
                 supervision3_case(i as usize, obs)
             }),
+            SubCheck::index("late_poll", "a stranger's two token offers (Tslot + 10 / 50 / 300 bit times apart) are both found by one late poll (5 / 50 bit times after the second): the second offer is accepted", |i, obs| {
+                let stranger = [X, Y][(i % 2) as usize];
+                let gap = SLOT + [10i64, 50, 300][((i / 2) % 3) as usize];
+                let resume = [5i64, 50][((i / 6) % 2) as usize];
+                obs.nontrivial(i);
+                obs.sample(|| json!({"stranger": stranger, "offers_apart_bits": gap, "polls_resume_after_bits": resume}));
+                late_poll_case(stranger, gap, resume, obs)
+            }),
+            SubCheck::index("timeout_then_pass", "own token pass right after a message cycle that ended in a time-out (no reply, or a reply that broke off after 1 / 3 / 5 / 7 / 12 bytes, 20 / 100 / 200 bit times after the request): successor silent or heard", |i, obs| {
+                let frag = [0usize, 1, 3, 5, 7, 12][(i % 6) as usize];
+                let delay = [20i64, 100, 200][((i / 6) % 3) as usize];
+                let heard = i >= 18;
+                obs.nontrivial(i);
+                obs.sample(|| json!({"reply_bytes_before_break": frag, "delay_bits": delay, "successor_heard": heard}));
+                timeout_then_pass_case(frag, delay, heard, obs)
+            }),
             SubCheck::index("supervision", "own token pass: successor silent, or heard after pass 1/2/3 (3 kinds of valid telegram and 3 kinds of undecodable activity x 8 delays x PHY with / without transmit latency)", |i, obs| {
                 let ha = match i % 4 {
                     0 => None,
@@ -443,12 +566,16 @@ pub fn property() -> Property {
         plan: |tier| match tier {
             Tier::Quick => vec![
                 Step::Enumerate { kind: "supervision", count: 384 },
+                Step::Enumerate { kind: "timeout_then_pass", count: 36 },
+                Step::Enumerate { kind: "late_poll", count: 12 },
                 Step::Enumerate { kind: "supervision3", count: 4 },
                 Step::Enumerate { kind: "seq4", count: 2 * 17u64.pow(4) },
                 Step::Pbt { kind: "random", cases: 20_000, max_len: 48 },
             ],
             Tier::Thorough => vec![
                 Step::Enumerate { kind: "supervision", count: 384 },
+                Step::Enumerate { kind: "timeout_then_pass", count: 36 },
+                Step::Enumerate { kind: "late_poll", count: 12 },
                 Step::Enumerate { kind: "supervision3", count: 4 },
                 Step::Enumerate { kind: "seq5", count: 2 * 17u64.pow(5) },
                 Step::Pbt { kind: "random", cases: 60_000, max_len: 48 },
